@@ -519,6 +519,63 @@ fn histories(ctx: &Ctx) {
     ctx.outcome("histories-explored", total as u64);
 }
 
+/// Candidates whose length differs from the current state's (birth / death moves): after an accepted
+/// step the chain must be AT y (same length, same bits), after a rejected one at x.
+fn varlen(ctx: &Ctx) {
+    #[derive(Clone)]
+    struct LenTarget;
+    impl Target<f64, f64> for LenTarget {
+        fn unnorm_logp(&self, p: &[f64]) -> f64 {
+            -(p.len() as f64) * 0.1 - p.iter().map(|v| v * v).sum::<f64>() * 0.01
+        }
+    }
+    #[derive(Clone)]
+    struct Fixed {
+        next: Vec<f64>,
+    }
+    impl Proposal<f64, f64> for Fixed {
+        fn sample(&mut self, _c: &[f64]) -> Vec<f64> {
+            self.next.clone()
+        }
+        fn logp(&self, _f: &[f64], _t: &[f64]) -> f64 {
+            0.0
+        }
+        fn set_seed(self, _s: u64) -> Self {
+            self
+        }
+    }
+    let xs: Vec<Vec<f64>> = vec![vec![1.0, 2.0], vec![0.5], vec![1.0, 2.0, 3.0, 4.0]];
+    let ys: Vec<Vec<f64>> = vec![vec![1.0, 2.0, 7.5], vec![2.0], vec![9.0, 8.0], vec![], vec![1.0, 2.0, 3.0, 4.0, 5.0, 6.0]];
+    for x in xs.iter() {
+        for y in ys.iter() {
+            for k in [0u64, (1 << 53) - 1] {
+                let case = json!({"level": "varlen", "x": x, "y": y, "k": k.to_string()});
+                ctx.evals(1);
+                ctx.transitions(1);
+                let mut chain = MHMarkovChain::<f64, f64, _, _>::new(LenTarget, Fixed { next: y.clone() }, x.clone());
+                chain.rng = rng_first_f64(k);
+                let r = LenTarget.unnorm_logp(y) - LenTarget.unnorm_logp(x);
+                let want = f64::variate(k).ln() < r;
+                match catch(|| chain.step().clone()) {
+                    Err(m) => ctx.violation(Violation::new("C01:panic", format!("step panicked for a candidate of length {}: {m}", y.len()), case)),
+                    Ok(st) => {
+                        let expect = if want { y } else { x };
+                        if st.len() != expect.len() || st.iter().zip(expect.iter()).any(|(a, b)| a.to_bits() != b.to_bits()) {
+                            ctx.violation(Violation::new(
+                                "C01:state-after-step(variable length)",
+                                format!("x = {x:?}, candidate y = {y:?}, rule says {}: the chain is at {st:?}", if want { "accept" } else { "reject" }),
+                                case,
+                            ));
+                        } else {
+                            ctx.outcome(if want { "variable-length candidate accepted" } else { "variable-length candidate rejected" }, 1);
+                        }
+                    }
+                }
+            }
+        }
+    }
+}
+
 pub fn run(ctx: &Ctx) {
     // machinery self-check: crafted generators really yield the requested variates
     for k in [0u64, 1, 12345, (1 << 24) - 1] {
@@ -546,6 +603,7 @@ pub fn run(ctx: &Ctx) {
         step_level::<f64, f32>(ctx);
     }
     histories(ctx);
+    varlen(ctx);
     sweeps(ctx);
     kernels(ctx);
     ctx.assume("the acceptance draw is injected through the public `rng` field (generator state crafted so that its next output is the chosen variate); the premise 'a step consumes exactly that output' is verified on every execution (failure = exit 2, not a verdict)");
@@ -579,6 +637,8 @@ pub fn check_case(ctx: &Ctx, case: &Value) {
             (Some("f64"), Some("f64")) => go!(f64, f64),
             _ => {}
         }
+    } else if case["level"].as_str() == Some("varlen") {
+        varlen(ctx);
     } else if case["level"].as_str() == Some("history") {
         histories(ctx);
     } else {
